@@ -58,6 +58,9 @@ func wirePathRec(v ssa.Value, depth int) string {
 				// the message itself: field of type *Slim loaded from a non-wire struct (st.inner)
 				if r := wireRootName(x.Type()); r == "Slim" {
 					return "Slim"
+				} else if r == "Array32" {
+					// a legacy array held in a plain record (old.children): the array is its own root
+					return "Array32"
 				}
 				return ""
 			}
@@ -65,6 +68,23 @@ func wirePathRec(v ssa.Value, depth int) string {
 				return base
 			}
 			return base + "." + fv.Name()
+		}
+		// load of a variable captured by a closure: the cell in the enclosing function
+		if fv, ok := x.X.(*ssa.FreeVar); ok {
+			if al := freeVarCell(fv); al != nil {
+				var st *ssa.Store
+				n := 0
+				for _, ref := range *al.Referrers() {
+					if s, ok := ref.(*ssa.Store); ok && s.Addr == ssa.Value(al) {
+						st = s
+						n++
+					}
+				}
+				if n == 1 {
+					return wirePathRec(st.Val, depth+1)
+				}
+			}
+			return ""
 		}
 		// load of a local variable holding a message pointer: follow single store
 		if al, ok := x.X.(*ssa.Alloc); ok {
@@ -358,4 +378,31 @@ func predicateNilTarget(call *ssa.Call) (ssa.Value, bool) {
 		return nil, false
 	}
 	return target, true
+}
+
+// freeVarCell: the local cell of the enclosing function that a closure's free variable refers to
+// (variables are captured by reference): the binding of the (single) MakeClosure of that function.
+func freeVarCell(fv *ssa.FreeVar) *ssa.Alloc {
+	fn := fv.Parent()
+	if fn == nil || fn.Parent() == nil {
+		return nil
+	}
+	idx := -1
+	for i, v := range fn.FreeVars {
+		if v == fv {
+			idx = i
+		}
+	}
+	var cell *ssa.Alloc
+	n := 0
+	instrsOf(fn.Parent(), func(_ *ssa.BasicBlock, in ssa.Instruction) {
+		if mc, ok := in.(*ssa.MakeClosure); ok && mc.Fn == ssa.Value(fn) && idx >= 0 && idx < len(mc.Bindings) {
+			n++
+			cell, _ = mc.Bindings[idx].(*ssa.Alloc)
+		}
+	})
+	if n != 1 {
+		return nil
+	}
+	return cell
 }
